@@ -462,12 +462,22 @@ func queryFace(ft *font.Font, w func(a ...any), seed uint64) {
 	// character map
 	var runes []rune
 	if ft.Cmap != nil {
+		// the iteration order of a format 0 cmap is Go map order: sort before digesting
+		type rg struct {
+			r rune
+			g font.GID
+		}
+		var pairs []rg
 		it := ft.Cmap.Iter()
 		for n := 0; n < 4096 && it.Next(); n++ {
 			r, g := it.Char()
+			pairs = append(pairs, rg{r, g})
+		}
+		sort.Slice(pairs, func(i, j int) bool { return pairs[i].r < pairs[j].r })
+		for n, p := range pairs {
 			if n < 24 || n%97 == 0 {
-				runes = append(runes, r)
-				w(r, g)
+				runes = append(runes, p.r)
+				w(p.r, p.g)
 			}
 		}
 		if rr, ok := ft.Cmap.(font.CmapRuneRanger); ok {
